@@ -116,9 +116,14 @@ def run(ck, prop, stream, families_note, variants=None, judge=None, theorems=Non
     tie_bad62 = []
     tie_bad63 = []
     tie_bad70 = []
+    tie_bad71 = []
+    maporder71 = [0, 0]
+    tie_bad80 = []
+    maporder80 = [0, 0]
     maporder70 = [0, 0]     # runs of the MVP-7.0 model, of which ended `maporder` (no verdict)
     maporder63 = [0, 0]     # runs of the MVP-6.3 model, of which ended `maporder` (no verdict)
     r60_bad, r60_n = [], [0]
+    r60d_bad, r60d_n = [], [0]
     excused = Counter()
     claimed = Counter()
     bad = []
@@ -144,9 +149,9 @@ def run(ck, prop, stream, families_note, variants=None, judge=None, theorems=Non
                     tie_bad.append(f"case {c['id']} {var}: Go {rr[0]['status']} cycles={rr[0]['cycles']} vs model {ref[key]}")
         # tie of the Lean model of the superscalar MVP-6.0 (Model.Mvp60, eu = wu = K): status, cycles, ticks and the final
         # registers and memory of the GO RUN (not of the reference: the model must reproduce the wrong results too)
-        # (same loop for Model.Mvp61 / mvp6-1: fields `m61pK`, and Model.Mvp62 / mvp6-2: fields `m62pK`, Model.Mvp63 / mvp6-3: fields `m63pK`, Model.Mvp70 / mvp7-0: fields `m70pK`;
+        # (same loop for Model.Mvp61 / mvp6-1: fields `m61pK`, and Model.Mvp62 / mvp6-2: fields `m62pK`, Model.Mvp63 / mvp6-3: fields `m63pK`, Model.Mvp70 / mvp7-0: fields `m70pK`, Model.Mvp71 / mvp7-1: fields `m71pK`, Model.Mvp80 / mvp8-0: fields `m80pK`;
         #  the MVP-6.3 model reports `maporder` where the Go result depends on map iteration order: such a run gets no verdict)
-        for prefix, var, K in [(pv[0], pv[1], K) for pv in (("m60p", "mvp6-0"), ("m61p", "mvp6-1"), ("m62p", "mvp6-2"), ("m63p", "mvp6-3"), ("m70p", "mvp7-0")) for K in (1, 2, 3, 4)]:
+        for prefix, var, K in [(pv[0], pv[1], K) for pv in (("m60p", "mvp6-0"), ("m61p", "mvp6-1"), ("m62p", "mvp6-2"), ("m63p", "mvp6-3"), ("m70p", "mvp7-0"), ("m71p", "mvp7-1"), ("m80p", "mvp8-0")) for K in (1, 2, 3, 4)]:
             key = f"{prefix}{K}"
             rr = [x for x in res if x["variant"] == var and x["par"] == K]
             if mods and key in ref and rr:
@@ -161,6 +166,16 @@ def run(ck, prop, stream, families_note, variants=None, judge=None, theorems=Non
                     if h == "maporder":
                         maporder70[1] += 1
                         continue
+                if prefix == "m71p":
+                    maporder71[0] += 1
+                    if h == "maporder":
+                        maporder71[1] += 1
+                        continue
+                if prefix == "m80p":
+                    maporder80[0] += 1
+                    if h == "maporder":
+                        maporder80[1] += 1
+                        continue
                 mstat = {"ret": "ok", "offend": "ok", "err": "err", "panic": "panic", "fuel": "hang"}[h]
                 budget = meta.get("budget", 0)
                 if mstat != "hang" and budget > 0 and int(mticks) > budget:
@@ -171,7 +186,7 @@ def run(ck, prop, stream, families_note, variants=None, judge=None, theorems=Non
                 gdig = m60_digest(g.get("regs", ""), g.get("mem", ""))
                 if g["status"] != mstat or (mstat == "ok" and int(cyc) != g["cycles"]) or \
                         (mstat in ("ok", "err") and (int(mticks) != g["ticks"] or dig != gdig)):
-                    {"m60p": tie_bad60, "m61p": tie_bad61, "m62p": tie_bad62, "m63p": tie_bad63, "m70p": tie_bad70}[prefix].append(f"case {c['id']} {var}/{K}: Go {g['status']} cycles={g['cycles']} ticks={g['ticks']} state={gdig} vs model {ref[key]}")
+                    {"m60p": tie_bad60, "m61p": tie_bad61, "m62p": tie_bad62, "m63p": tie_bad63, "m70p": tie_bad70, "m71p": tie_bad71, "m80p": tie_bad80}[prefix].append(f"case {c['id']} {var}/{K}: Go {g['status']} cycles={g['cycles']} ticks={g['ticks']} state={gdig} vs model {ref[key]}")
         # R60: a member of the class Model.Mvp60.RegOnly (field r60, first digit) whose reference run is well-formed must be run
         # CORRECTLY by the MVP-6.0 model at every evaluated parallelism (the statement Props.C01.Full_mvp60_regonly_correct)
         if mods and ref.get("r60", "00")[:1] == "1" and not ref["stop"].startswith("notwf"):
@@ -184,6 +199,19 @@ def run(ck, prop, stream, families_note, variants=None, judge=None, theorems=Non
                 r60_n[0] += 1
                 if h != want or (want != "err" and same != "same"):
                     r60_bad.append(f"case {c['id']} mvp6-0/{K}: reference {ref['stop']} vs model {ref[key]}")
+        # R60d: the same for the class Model.Mvp60.StraightLineLdRet (field r60, seventh digit: straight-line programs with loads, no
+        # stores/branches/jumps/div/rem, `ret` only as the last instruction; the sixth digit is its sub-class without `ret`) --
+        # the statement Props.C05.mvp60_readonly_ret_correct, every evaluated parallelism
+        if mods and ref.get("r60", "0000000")[6:7] == "1" and not ref["stop"].startswith("notwf"):
+            for K in (1, 2, 3, 4):
+                key = f"m60p{K}"
+                if key not in ref:
+                    continue
+                h, _, same, _, _ = ref[key].split(",")
+                want = "err" if ref["stop"].startswith("err") else ref["stop"]
+                r60d_n[0] += 1
+                if h != want or (want != "err" and same != "same"):
+                    r60d_bad.append(f"case {c['id']} mvp6-0/{K}: reference {ref['stop']} vs model {ref[key]}")
         if ref["stop"].startswith("notwf"):
             continue
         f = cpu.features(c, ref)
@@ -230,6 +258,14 @@ def run(ck, prop, stream, families_note, variants=None, judge=None, theorems=Non
         ck.broken.append(f"correspondence Go MVP-6.3 vs the Lean machine model Model.Mvp63 differs on {len(tie_bad63)} runs; first: {tie_bad63[0]}")
     if tie_bad70:
         ck.broken.append(f"correspondence Go MVP-7.0 vs the Lean machine model Model.Mvp70 differs on {len(tie_bad70)} runs; first: {tie_bad70[0]}")
+    if tie_bad71:
+        ck.broken.append(f"correspondence Go MVP-7.1 vs the Lean machine model Model.Mvp71 differs on {len(tie_bad71)} runs; first: {tie_bad71[0]}")
+    if tie_bad80:
+        ck.broken.append(f"correspondence Go MVP-8.0 vs the Lean machine model Model.Mvp80 differs on {len(tie_bad80)} runs; first: {tie_bad80[0]}")
+    if maporder80[1]:
+        ck.notes.append(f"M80: {maporder80[1]} of {maporder80[0]} runs of the MVP-8.0 model end as `maporder` (the Go result depends on map iteration order): no verdict")
+    if maporder71[1]:
+        ck.notes.append(f"M71: {maporder71[1]} of {maporder71[0]} runs of the MVP-7.1 model end as `maporder` (the Go result depends on map iteration order): no verdict")
     if maporder70[1]:
         ck.notes.append(f"M70: {maporder70[1]} of {maporder70[0]} runs of the MVP-7.0 model end as `maporder` (the Go result depends on map iteration order): no verdict")
     if maporder63[1]:
@@ -238,6 +274,10 @@ def run(ck, prop, stream, families_note, variants=None, judge=None, theorems=Non
         ck.broken.append(f"R60: the MVP-6.0 model runs {len(r60_bad)} of {r60_n[0]} register-only (class RegOnly) runs differently from the reference; first: {r60_bad[0]}")
     elif r60_n[0]:
         ck.notes.append(f"R60: {r60_n[0]} runs of programs in the class RegOnly: the MVP-6.0 model agrees with the reference on all of them")
+    if r60d_bad:
+        ck.broken.append(f"R60d: the MVP-6.0 model runs {len(r60d_bad)} of {r60d_n[0]} straight-line-with-loads (class StraightLineLdRet) runs differently from the reference; first: {r60d_bad[0]}")
+    elif r60d_n[0]:
+        ck.notes.append(f"R60d: {r60d_n[0]} runs of programs in the class StraightLineLdRet: the MVP-6.0 model agrees with the reference on all of them")
     # 3. violations: one per (variant, verdict-kind), shrunk
     seen = set()
     for c, ref, r, v in bad:
